@@ -5,6 +5,7 @@ cd "$(dirname "$0")/.."
 IDS=("$@"); [ ${#IDS[@]} -eq 0 ] && IDS=($(ls seeded | grep -v '\.md$'))
 for id in "${IDS[@]}"; do
   d=seeded/$id
+  if [ "$(jq -r '.retired // empty' $d/meta.json)" != "" ]; then echo "$id: retired (see meta.json)"; continue; fi
   T=/tmp/mx-$id; rm -rf $T; mkdir -p $T; cp $d/patch.diff $d/demo_test.go $d/meta.json $T/
   # evalmut reads property/demo fields from meta.json of the round format
   python3 - "$T/meta.json" <<'PY'
